@@ -234,6 +234,15 @@ async fn run_behaviour(rig: &Rig, b: &Value, idx: u64, f: u64) -> Outcome {
                 let mut client = ReplicationClient::<MemStore>::new(me.clock.clone(), me.network.get_or_connect(rig.nodes[&p].addr));
                 match client.get_state(ks.clone()).await {
                     Ok((_, set)) => {
+                        // C19: what n received is the state p holds at the moment it answered (nothing else runs in between)
+                        let peer_actor = rig.nodes[&p].grp().get_or_create_keyspace(&ks).await;
+                        let actual = decode_set(&peer_actor.send(Serialize).await.expect("serialize"));
+                        let (a, b) = (set.verif_project(), actual.verif_project());
+                        if a.entries != b.entries || a.dead != b.dead || a.max_stamps != b.max_stamps || a.safe_stamps != b.safe_stamps {
+                            out.why.push(("C19".into(), format!(
+                                "step {i}: node {n} received from node {p} a state with {} live / {} tombstones, but node {p} holds {} live / {} tombstones at that moment",
+                                a.entries.len(), a.dead.len(), b.entries.len(), b.dead.len())));
+                        }
                         exch.insert((n, p), Exchange { snap: Some(set), modified: vec![], removed: vec![], fetched: None });
                     },
                     Err(e) => {
